@@ -22,6 +22,10 @@ Squares(a) == [a EXCEPT !.elems = [q \in 1..Len(a.elems) |-> a.elems[q] * a.elem
 ScaledVar(a, e, n) == LET s1 == Reduce("add", a, e.args.axis, <<>>, Keep(e))  s2 == Reduce("add", Squares(a), e.args.axis, <<>>, Keep(e))
                       IN IF ~s1.ok THEN Nothing ELSE [s1 EXCEPT !.elems = [q \in 1..Len(s1.elems) |-> n * s2.elems[q] - s1.elems[q] * s1.elems[q]]]
 WithDtype(r, f) == IF r.ok THEN [dtype |-> IF IsPredicate(f) THEN "bool" ELSE IF IsFloatValued(f) THEN "float" ELSE "int"] @@ r ELSE r
+\* with explicit operand element types (e.args.etypes): the scalar operation on C++ operands yields a floating value iff an operand is floating
+\* (integer operands narrower than int are promoted to int: no wrap-around in the element type of the operands)
+FloatOperand(e) == "etypes" \in DOMAIN e.args /\ \E q \in 1..Len(e.args.etypes) : e.args.etypes[q] \in {"f32", "f64"}
+WithDtypeE(r, f, e) == IF r.ok THEN [dtype |-> IF IsPredicate(f) THEN "bool" ELSE IF IsFloatValued(f) \/ FloatOperand(e) THEN "float" ELSE "int"] @@ r ELSE r
 
 \* the source indices of the listed result indices, concatenated
 SliceSrcIndices(shape, parts, at) ==
@@ -107,8 +111,8 @@ ExpectWith(e, a) ==
             LET vw(x, w) == CASE w = "id" -> x [] w = "transpose" -> Transpose(x, <<>>) [] w = "flatten" -> Flatten(x)
                 r == Elementwise(<<vw(a, e.args.va), vw(Operand(e, 2), e.args.vb)>>, LAMBDA v : Scalar2(e.args.f, v[1], v[2]))
             IN [ok |-> r.ok, shape |-> r.shape, elems |-> r.elems]
-      [] e.op \in BinOps -> WithDtype(Elementwise(<<a, Operand(e, 2)>>, LAMBDA v : Scalar2(e.op, v[1], v[2])), e.op)
-      [] e.op \in UnOps -> WithDtype(Elementwise(<<a>>, LAMBDA v : Scalar1(e.op, v[1])), e.op)
+      [] e.op \in BinOps -> WithDtypeE(Elementwise(<<a, Operand(e, 2)>>, LAMBDA v : Scalar2(e.op, v[1], v[2])), e.op, e)
+      [] e.op \in UnOps -> WithDtypeE(Elementwise(<<a>>, LAMBDA v : Scalar1(e.op, v[1])), e.op, e)
       [] e.op \in OuterOps -> WithDtype(Outer(OuterName(e.op), a, Operand(e, 2)), OuterName(e.op))
       \* C08
       [] e.op \in RedOps -> Reduce(RedName(e.op), a, e.args.axis, e.args.initial, Keep(e))
